@@ -346,7 +346,7 @@ func (m *Model) Predict(msg sdk.Msg, tx *TxCtx) *Expect {
 			return fail(false, "exists")
 		}
 		if len(x.Address) != 32 {
-			return fail(false, "length")
+			return fail(true, "length")
 		}
 		return &Expect{V: MustSucceed, Writes: []string{keyStr(types.RemoteTokenMessengerKeyPrefix, types.RemoteTokenMessengerKey(x.DomainId))},
 			apply: func(m *Model) { m.Msgrs[x.DomainId] = append([]byte{}, x.Address...) }}
@@ -427,7 +427,7 @@ func (m *Model) Predict(msg sdk.Msg, tx *TxCtx) *Expect {
 			return fail(false, "role")
 		}
 		if len(x.RemoteToken) != 32 {
-			return fail(false, "length")
+			return fail(true, "length")
 		}
 		k := pairKey(x.RemoteDomain, x.RemoteToken)
 		if _, ok := m.Pairs[k]; ok {
@@ -442,7 +442,7 @@ func (m *Model) Predict(msg sdk.Msg, tx *TxCtx) *Expect {
 			return fail(false, "role")
 		}
 		if len(x.RemoteToken) != 32 {
-			return fail(false, "length")
+			return fail(true, "length")
 		}
 		k := pairKey(x.RemoteDomain, x.RemoteToken)
 		if _, ok := m.Pairs[k]; !ok {
